@@ -68,3 +68,54 @@ Example C20_generation_nonvacuous :
   /\ option_map gen (match before_update_main (cfg KUpstreamCluster) old old with Stored r => Some r | _ => None end) = Some 5
   /\ served_sub (cfg KUpstreamCluster) = true.
 Proof. vm_compute. repeat split; try reflexivity; discriminate. Qed.
+
+(* ---------- the whole step (PrepareFor*, validation, Canonicalize): STORED object before vs STORED object after ---------- *)
+(* main-resource update: the stored generation is +1 exactly when the stored (observable) spec or the stored
+   annotations differ from what was stored before, unchanged otherwise; the stored status never changes for kinds
+   served with a status subresource.  [r] is the object the store persists and serves, not the submitted one. *)
+Theorem C20_stored_generation_iff_stored_change : forall k old new,
+  0 <= gen old < max_int64 ->
+  exists r, step_update_main (cfg k) old new = Stored r
+    /\ (gen r = gen old + 1 <-> ~ stored_unchanged old r)
+    /\ (stored_unchanged old r -> gen r = gen old)
+    /\ (gen r = gen old \/ gen r = gen old + 1)
+    /\ (served_sub (cfg k) = true -> status r = status old).
+Proof. exact stored_generation_iff_stored_change. Qed.
+Print Assumptions C20_stored_generation_iff_stored_change.
+
+(* status update: the stored spec, labels and generation are the previous ones *)
+Theorem C20_stored_status_update : forall k old new,
+  served_sub (cfg k) = true -> 0 <= gen old ->
+  exists r, step_update_status (cfg k) old new = Stored r
+    /\ spec r = spec old /\ labels r = labels old /\ gen r = gen old
+    /\ status r = status new /\ annotations r = annotations new /\ meta_rest r = meta_rest new.
+Proof. exact stored_status_update. Qed.
+Print Assumptions C20_stored_status_update.
+
+(* create: stored generation 1, status cleared; the stored annotations are the submitted ones (so that a re-apply of
+   the same manifest is a no-change update, see the example) *)
+Theorem C20_stored_create : forall k new,
+  exists r, step_create (cfg k) new = Stored r
+    /\ gen r = 1 /\ spec r = spec new /\ labels r = labels new /\ annotations r = annotations new
+    /\ (served_sub (cfg k) = true -> status r = zero_payload).
+Proof. exact stored_create. Qed.
+Print Assumptions C20_stored_create.
+
+(* non-vacuity, with the annotation key 7 = kubectl.kubernetes.io/last-applied-configuration: create a manifest that
+   carries it -> stored with it, generation 1; re-apply the identical manifest -> generation stays 1; a label-only
+   change of the stored object -> stored annotations still carry it, generation stays 1; dropping it -> 2 *)
+Example C20_stored_reapply_nonvacuous :
+  let manifest := {| gen := 0; labels := CList [(1, 1)]; annotations := CList [(7, 1)]; meta_rest := CNil;
+                     spec := {| ps := 1; pc := CList [1] |}; status := zero_payload |} in
+  let gen_of out := match out with Stored r => Some (gen r, annotations r) | _ => None end in
+  match step_create (cfg KUpstreamCluster) manifest with
+  | Stored s1 =>
+      gen_of (Stored s1) = Some (1, CList [(7, 1)])
+      /\ gen_of (step_update_main (cfg KUpstreamCluster) s1 manifest) = Some (1, CList [(7, 1)])
+      /\ gen_of (step_update_main (cfg KUpstreamCluster) s1 (set_labels manifest (CList [(1, 2)]))) = Some (1, CList [(7, 1)])
+      /\ gen_of (step_update_main (cfg KUpstreamCluster) s1
+                   {| gen := 0; labels := labels manifest; annotations := CNil; meta_rest := CNil;
+                      spec := spec manifest; status := zero_payload |}) = Some (2, CNil)
+  | _ => False
+  end.
+Proof. vm_compute. repeat split; reflexivity. Qed.
